@@ -121,6 +121,7 @@ int main(int argc, char** argv) {
     if (part == "u3") uni::U3((int)w.args.getInt("wk", 2), P, visit, (int)w.args.getInt("types", 0x7c));
     else if (part == "uep") uni::UEP(P, visit, (int)w.args.getInt("sliders", 7), (int)w.args.getInt("files", 255), (int)w.args.getInt("sides", 3));
     else if (part == "ucastle") uni::UCASTLE(P, visit, w.args.getInt("blockers", 0) != 0);
+    else if (part == "ukraid") uni::UKRAID(P, visit);
     else if (part == "u4") {
         auto classes = uni::u4Classes(false);
         long from = w.args.getInt("from", 0), cnt = w.args.getInt("count", 4);
@@ -135,7 +136,7 @@ int main(int argc, char** argv) {
     }
     else if (part == "perft") {
         auto seeds = uni::readSeeds(w.args.get("seeds", "corpus/seeds.fen"));
-        uni::UPERFT(seeds, (int)w.args.getInt("depth", 2), P, [&](const orc::Board& b, unsigned long long, int) { checkPosition(b); });
+        uni::UPERFT(seeds, (int)w.args.getInt("depth", 2), P, [&](const orc::Board& b, unsigned long long, int) { checkPosition(b); }, 2, [&]() { return w.dl.hit(); }); if (w.dl.hit()) R.exhaustive = false;
     }
     else return 2;
     w.finish(R);
